@@ -104,7 +104,7 @@ func runC10(c *Ctx) {
 		depth = 4
 	}
 	c.Exhaustive = true
-	c.Rule = fmt.Sprintf("all management-call histories of depth <= %d over a 24-call alphabet (p and g; single, batch, Ex, update, batch update, filtered removal, UpdateFilteredPolicies) plus SavePolicy/LoadPolicy, with the recording set-semantics adapter implementing every optional interface, under both auto-save settings, and over an 11-call alphabet on a subject-priority model whose store is loaded out of hierarchy order (implementation only: live vs freshly loaded, rule list vs index); after every call the adapter contents and call log are compared with the Lean model and, after every successful call with auto-save on, a second real enforcer freshly loaded from the adapter must make the same decisions over the 16-request universe (checked on the implementation); the file/string adapter save/load round trip over loadable fields; non-trivial = a history with a call that changed the policy and one that was refused; distinct = whole history", depth)
+	c.Rule = fmt.Sprintf("all management-call histories of depth <= %d over a 24-call alphabet (p and g; single, batch, Ex, update, batch update, filtered removal, UpdateFilteredPolicies) plus SavePolicy/LoadPolicy, with the recording set-semantics adapter implementing every optional interface, under both auto-save settings, over a 9-call alphabet on a model with explicit priority as first column whose store is attached after construction (never loaded), and over an 11-call alphabet on a subject-priority model whose store is loaded out of hierarchy order (implementation only: live vs freshly loaded, rule list vs index); after every call the adapter contents and call log are compared with the Lean model and, after every successful call with auto-save on, a second real enforcer freshly loaded from the adapter must make the same decisions over the 16-request universe (checked on the implementation); the file/string adapter save/load round trip over loadable fields; non-trivial = a history with a call that changed the policy and one that was refused; distinct = whole history", depth)
 	for _, autosave := range []bool{true, false} {
 		autosave := autosave
 		alpha := append(mgmtAlphabet(), EOp{Kind: "save"}, EOp{Kind: "load"})
@@ -201,6 +201,46 @@ func runC10(c *Ctx) {
 		}
 		enumerate(c, cfg)
 	}
+	// explicit priority as the FIRST column, the enforcer built from the model alone and the store attached later
+	// (no load ever ran): rules added out of priority order must be listed, persisted and reloaded alike
+	{
+		msP := NewMSpec().AddR("r", "sub", "obj", "act").AddP("p", "priority", "sub", "obj", "act", "eft").AddG("g", 2).
+			AddE("e", effPriority).AddM("m", "r", "p", And(G2("g", RTok(0), PTok(1)), Eq(RTok(1), PTok(2)), Eq(RTok(2), PTok(3))))
+		PP := [][]string{{"20", "alice", "data1", "read", "deny"}, {"10", "alice", "data1", "read", "allow"}, {"10", "admin", "data1", "read", "deny"}, {"5", "bob", "data2", "write", "allow"}}
+		alphaP := []EOp{
+			{Kind: "add", Sec: "p", PType: "p", Rule: PP[0]}, {Kind: "add", Sec: "p", PType: "p", Rule: PP[1]}, {Kind: "add", Sec: "p", PType: "p", Rule: PP[2]},
+			{Kind: "add", Sec: "p", PType: "p", Rule: PP[3]}, {Kind: "adds", Sec: "p", PType: "p", Rules: [][]string{PP[0], PP[3]}},
+			{Kind: "rm", Sec: "p", PType: "p", Rule: PP[1]}, {Kind: "add", Sec: "g", PType: "g", Rule: []string{"alice", "admin"}},
+			{Kind: "load"}, {Kind: "save"},
+		}
+		cfgP := &HistCfg{Name: "priority-first-late-adapter", MS: msP, Opts: CaseOpts{Adapter: true, LateAdapter: true}, Depth: 3, Alphabet: alphaP,
+			Probes: []EOp{{Kind: "obs", Args: []string{"adapter"}}, {Kind: "obs", Args: []string{"pol", "p", "p"}},
+				{Kind: "enf", Req: []V{VS("alice"), VS("data1"), VS("read")}}, {Kind: "enf", Req: []V{VS("bob"), VS("data2"), VS("write")}}}}
+		cfgP.AfterStep = func(c *Ctx, s *Sess, hist []EOp, obs string) {
+			if obs != "true" && obs != "ok" {
+				return
+			}
+			e2, err := casbin.NewEnforcer(msP.Build(), s.A)
+			s.A.Log = s.A.Log[:len(s.A.Log)-1]
+			s.A.Calls--
+			if err != nil {
+				c.Direct("an enforcer freshly loaded from the adapter fails to load", histText(hist))
+				return
+			}
+			for _, rq := range [][]interface{}{{"alice", "data1", "read"}, {"admin", "data1", "read"}, {"bob", "data2", "write"}} {
+				a, _ := s.E.Enforce(rq...)
+				b, _ := e2.Enforce(rq...)
+				if a != b {
+					lp, _ := s.E.GetPolicy()
+					fp, _ := e2.GetPolicy()
+					c.Direct("a freshly loaded enforcer decides differently from the live one", fmt.Sprintf("priority first column, store attached after construction: %s\nrequest %v live=%v fresh=%v\nlive rules  %v\nfresh rules %v", histText(hist), rq, a, b, lp, fp))
+					return
+				}
+			}
+			c.Count("fresh_enforcer_comparisons_priority_first", 1)
+		}
+		enumerate(c, cfgP)
+	}
 	// subject priority: the store holds the rules in an order the load-time sort changes (the most specific
 	// subject last); every later call by rule value must still hit that rule in memory and in the adapter
 	{
@@ -272,8 +312,9 @@ func runC10(c *Ctx) {
 
 func runC11(c *Ctx) {
 	c.Exhaustive = true
-	c.Rule = "fault enumeration: from every state reachable in <= 1 call (quick) / <= 2 calls (thorough) over the 24-call management alphabet: every management call, SavePolicy and LoadPolicy x failure of its k-th adapter call (k = 1, 2), LoadPolicy failing after k delivered lines for every k <= number of lines, role-link rebuilding failing at the j-th link for every j; the calls of the RBAC API and its domain variants (20 calls) x failure of their k-th adapter call for every k they make (implementation only; the four calls composed of several management calls only for k = 1: finding D40); observed: returned error, listed rules, HasLink over the universe, decisions over 16 requests, before vs after (on the implementation) and against the Lean model; non-trivial = a fault that was actually hit (the call reported an error); distinct = (prefix, call, fault)"
+	c.Rule = "fault enumeration: from every state reachable in <= 1 call (quick) / <= 2 calls (thorough) over the 24-call management alphabet: every management call, SavePolicy and LoadPolicy x failure of its k-th adapter call (k = 1, 2), LoadPolicy failing after k delivered lines for every k <= number of lines, role-link rebuilding failing at the j-th link for every j (also on a model whose role definitions are all conditional: the j-th grouping line of the reloaded text lacks its parameters); the calls of the RBAC API and its domain variants (20 calls) x failure of their k-th adapter call for every k they make (implementation only; the four calls composed of several management calls only for k = 1: finding D40); observed: returned error, listed rules, HasLink over the universe, decisions over 16 requests, before vs after (on the implementation) and against the Lean model; non-trivial = a fault that was actually hit (the call reported an error); distinct = (prefix, call, fault)"
 	c11RbacFaults(c)
+	condRejectedReload(c)
 	alpha := mgmtAlphabet()
 	prefixes := [][]EOp{{}}
 	for _, o := range alpha {
@@ -494,7 +535,7 @@ func runC15(c *Ctx) {
 		depth = 3
 	}
 	c.Exhaustive = true
-	c.Rule = fmt.Sprintf("all management-call histories of depth <= %d (effective, no-op and failing calls; failing = the first adapter call of the last step is armed to fail in a second pass) x {Watcher, WatcherEx, UpdatableWatcher, WatcherEx+Updatable} x auto-notify on/off (and auto-save off for two watcher kinds: announcements do not depend on it; and for two kinds from a store that already holds a p and a g rule), two real enforcers sharing the recording in-memory adapter over a synchronous bus: the notification log (kind and arguments) is compared with the Lean model after every call, and on the implementation: exactly one notification per effective call, none for false/error results and Self* calls, and the peer, reloading on every notification, reaches the originator's decisions; non-trivial = a history with an effective and a no-op call; distinct = (watcher kind, flags, history)", depth)
+	c.Rule = fmt.Sprintf("all management-call histories of depth <= %d (effective, no-op and failing calls; failing = the first adapter call of the last step is armed to fail in a second pass) x {Watcher, WatcherEx, UpdatableWatcher, WatcherEx+Updatable} x auto-notify on/off (and auto-save off for two watcher kinds: announcements do not depend on it; and for two kinds from a store that already holds a p and a g rule), two real enforcers sharing the recording in-memory adapter over a synchronous bus: the notification log (kind and arguments) is compared with the Lean model after every call, and on the implementation: exactly one notification per effective call, none for false/error results and Self* calls, and the peer, reloading on every notification, reaches the originator's decisions; every rule-changing SyncedEnforcer method (Self* replays included) vs the Enforcer method it wraps on twin enforcers: same notifications, results and state; non-trivial = a history with an effective and a no-op call; distinct = (watcher kind, flags, history)", depth)
 	type c15Variant struct {
 		wk               string
 		notify, autosave bool
@@ -634,6 +675,20 @@ func runC15(c *Ctx) {
 			enumerate(c, cfg)
 		}
 	}
+	// the synchronised wrapper announces exactly what the plain enforcer announces: every method that changes
+	// rules (Self* replays included) on twin enforcers with a WatcherEx+UpdatableWatcher each
+	rounds := 2
+	if c.Thorough() {
+		rounds = 20
+	}
+	wrapperTransparency(c, rounds, func(name string) bool {
+		for _, k := range []string{"Polic", "Self", "Role", "Permission", "User", "Domain"} {
+			if strings.Contains(name, k) && !strings.HasPrefix(name, "Get") && !strings.HasPrefix(name, "Has") {
+				return true
+			}
+		}
+		return false
+	})
 }
 
 // c15Expected: what a watcher of kind wk must be told for an effective call ("" = not checked here)
